@@ -1,5 +1,5 @@
 """What MANIFEST.json claims, per property (edited by hand; tools/mkmanifest.py renders it)."""
-HOOK_COMMITS = ["7ed0aad", "d8606cd"]
+HOOK_COMMITS = ["7ed0aad", "d8606cd", "08f1a83"]
 NOTES = ("Every check rebuilds the harness against /repo's working tree and the Lean project, runs the proof stage "
          "(lake build of the property's theorem module + #print axioms audit), the model/implementation correspondence "
          "and the property oracle on the implementation. Genuine defects found are repaired by fix: commits in /repo "
@@ -8,6 +8,68 @@ NOT_YET = {}
 TB = ("Trusted: Lean kernel (axioms propext, Classical.choice, Quot.sound only; audited by #print axioms on every run); "
       "the hand-written model's correspondence to the code (differential, bounded by the generators whose distribution is in the evidence); ")
 CLAIMS = {
+ "C05": dict(
+  category="proof",
+  text=("Lean 4 theorems (family built by a sub-agent under the common brief, merged and re-checked here): for every well-formed Quake 1/2/3 status reply "
+        "(distinct variables, names/skins/addresses quoted or unquoted, optional address, optional trailing NUL, 0-255 player lines) and every port / retry "
+        "count, the query over the SPEC reply equals the SPEC's expected response: named variables, one player entry per line in order, count = number of "
+        "lines (u8), every other variable unchanged in the unused entries. Tie + oracle: SPEC-generated replies and mutations on the real code. Two "
+        "findings recorded with witnesses probed on every run (negative QuakeWorld frags vs u16 score; non-UTF-8 name bytes)."),
+  note=TB + "SPEC written from the servers' print formats and node-gamedig; the two recorded findings are outside the repaired behaviour (public type / charset decisions).",
+  technique="Lean 4 proof (decode∘encode over the line-oriented status format, through the transport) + SPEC-driven differential"),
+ "C20": dict(
+  category="proof",
+  text=("Lean 4 theorems over a model of the id-naming checker: totality — for EVERY list of (id, name) pairs (any byte strings, hence every name of "
+        "the documented grammar incl. text after a hyphenated number) the checker returns a list of failures and never panics: every word it produces is "
+        "non-empty, so no unwrap on an empty word is reachable (assumption: number_to_words never returns an empty string); self-consistency — for a single "
+        "game there is an id E (a function of the name alone) such that an id is accepted exactly when it is E or, for a name with a '-', the id expected "
+        "for the part after the first '-'. Tie + oracle: grammar-generated names x ids (the ids the checker itself reports, near misses, junk) and lists of "
+        "1-4 games on the real crate in-process; accepted = reported set, independent of the wrong id proposed; the shipped table passes."),
+  note=TB + "ASCII names (Unicode is_alphabetic/to_lowercase outside the model); roman_numeral mirrored in Lean, number_to_words a parameter table filled from the real crate at check time; the shipped-table pass is checked by running model and implementation on it, not by a kernel evaluation.",
+  technique="Lean 4 proof (non-emptiness invariant through the word pipeline; case analysis of the rule-8 recursion) + grammar-driven differential"),
+ "C14": dict(
+  category="proof",
+  text=("Translation + Lean 4 proof: tools/xlate.py regenerates on every run the definitions table (96 games) and every dedicated module's parameters "
+        "(game_query_mod! invocations and the hand-written modules' default ports) as Lean data; theorems re-checked against it: for every game with a "
+        "module, port / protocol / engine ids / gathering settings agree (decide over the whole table); ids unique; every row within the translator's "
+        "grammar. For Valve games: if the rows agree, the generic, module and protocol-level paths are the same computation for every script and port "
+        "(equal logs and results up to game::Response::new_from_valve_response), and every event of the generic path carries the given port or the "
+        "definition's default. Tie + oracle: the three real call paths run under the same scripted servers for every Valve game of the table."),
+  note=TB + "translator validated by the differential; modules take no timeout argument (compared at retry 0); non-Valve rows: table theorems now, differential as their families land. Known finding: battalion1944 (module-only rule overrides).",
+  technique="source-to-Lean translation of the game tables + Lean 4 proof (decide over the table, path equality) + three-path differential"),
+ "C15": dict(
+  category="proof",
+  text=("Translation + Lean 4 proof: tools/xlate.py regenerates, on every run, the accessor table of every `impl CommonResponse/CommonPlayer for T` "
+        "(29 impls) as Lean data (Gen/Views.lean); theorems re-checked against it: every accessor is syntactically the intended one of Spec/Views.lean "
+        "(reads exactly the corresponding protocol-specific field, or is None where the type has none), no accessor body is outside the translator's "
+        "grammar, as_original is `Generic…::Variant(self)` and as_json is never overridden for every type; and for ALL response values and ALL accessor "
+        "tables: an accessor returns exactly the value at its path, and the JSON form's members are exactly the accessor values (players: the players' own "
+        "JSON forms, in order). Tie: the generated tables are evaluated by the Lean driver on dumped real responses and must reproduce the real as_json(); "
+        "oracle: accessors = as_json members, as_original contains the response unchanged."),
+  note=TB + "translator (regex over one-line accessor bodies) is validated by the differential; serde rendering is trusted; Epic/Minetest (tls feature) are covered by the table theorems only.",
+  technique="source-to-Lean translation of accessor tables + Lean 4 proof over all response values + evaluation differential"),
+ "C18": dict(
+  category="proof",
+  text=("Lean 4 theorems over a model of TimeoutSettings: the constructor rejects a zero read/write/connect duration with InvalidInput whatever "
+        "the other values and accepts everything else unchanged; a command-line flag value that parses to zero is rejected and whatever the flags "
+        "accept has three non-zero durations; deserialisation is the constructor; every configuration accepted by any path (or Default, or none) "
+        "passes apply_timeout's unwraps and makes connect_timeout at worst return an error value; the retry combinator has no crash of its own for "
+        "any retry count. Tie + oracle: the quantifier's matrix enumerated exhaustively through new / serde_json / clap on the real code, every "
+        "accepted value then used on real UDP and TCP sockets, extreme retry counts on scripted queries."),
+  note=TB + "clap/serde derive output is modelled (field-wise construction through parse_duration_secs / try_from), std socket-option behaviour is exercised on real sockets, not proved.",
+  technique="Lean 4 proof (decision logic of the three construction paths) + exhaustive configuration matrix on the real code"),
+ "C16": dict(
+  category="proof",
+  text=("Lean 4 theorems: (1) for ANY three ordered groups of filters (hence every iteration order of the three hash maps), any region and seed, "
+        "the request datagram read back by a reference reader of the Master Server Query Protocol grammar yields exactly the region, the seed "
+        "'ip:port' and, per group, the key/value pair the protocol defines for each filter (values over all byte strings without backslash/NUL, all "
+        "u32 ids via a proved decimal render/parse inverse); insertion keeps one filter per kind, the later replacing the earlier, each method touching "
+        "only its own group; (2) for EVERY well-formed history of reply pages (any number of pages) the paged query returns all listed addresses in "
+        "order without the terminator, one request per page seeded with the last address of the previous page, and stops; a page in the protocol's "
+        "layout decodes to exactly its entries. Tie + oracle: insertion sequences (exhaustive to 3 in the thorough tier) and page histories on the real "
+        "code; sent requests parsed by the reference grammar and compared with an independently computed denotation."),
+  note=TB + "the reference grammar reader (Spec/Master.lean) is the specification and is trusted; pages are limited to 232 entries (the 1400-byte receive buffer).",
+  technique="Lean 4 proof (tokenisation/grammar round trip; induction over page histories) + grammar-based request differential"),
  "C01": dict(
   category="proof",
   text=("Lean 4 theorem per modelled entry family: for EVERY reply script (any datagrams of any content and size, silences, refused "
